@@ -144,7 +144,8 @@ def _codec_common(ck, props, label_rule):
             "session-id spaces); the same messages are built with the real factories (TLC -> Go), and seeded random messages built six ways are "
             "encoded, decoded and re-encoded by the real code (Go -> TLC); TLC compares the representation-level projection of the decoded "
             "message with the original and the bytes with the specification's."
-            " Real items of every format at every length-byte boundary (alone, behind each other, very many small ones behind a sibling) are decoded from a receive buffer that is overwritten afterwards (run-length summaries).",
+            " Real items of every format at every length-byte boundary (alone, behind each other, very many small ones behind a sibling) are decoded from a receive buffer that is overwritten afterwards (run-length summaries)."
+            " In use: simulated behaviours of HsmsApp (host and equipment exchanging SECS-II transactions over HSMS) are replayed with the library as the application - messages of an SML dictionary filled through ellipses, stamped, encoded, decoded at the other end, replies made from what was decoded.",
        note="scope bounds as in MCRoundTrip.cfg; random trees to depth 5; items above 4095 elements are covered by the run-length 'big' driver (C13)")
 def c01(ck):
     _codec_common(ck, ["InvC01"],
@@ -173,7 +174,8 @@ def c01(ck):
        text="Secs2.tla states the wire format independently of the code (format byte, shortest length, two's complement, IEEE-754, children in "
             "order, 10-byte header); TLC checks layout lemmas on it and then every recorded ToBytes() of the real code - complete and incomplete "
             "messages - against EncMsg of the representation-level projection. A round trip cannot see an encoder and decoder that agree on a "
-            "wrong format; this can.",
+            "wrong format; this can."
+            " Messages that came out of the decoder (from non-minimal spellings) and the frames an application produces from an SML dictionary (HsmsApp behaviours) are judged the same way.",
        note="float bit patterns come from math.Float32bits/Float64bits in the harness; the projection is trusted")
 def c02(ck):
     _codec_common(ck, ["InvC02"],
@@ -268,7 +270,8 @@ def c07(ck):
             "are executed with the real constructors; the real Type() is swept over all pairs and every constructor over all 65,536 session ids "
             "(as intervals), response constructors are called with every kind of request, and random headers are built, encoded and decoded; TLC "
             "judges every recorded result."
-            " All 256 status/reason codes at five session ids are built and decoded back; pairs of different headers with equal 32-bit checksums are decoded one after the other.",
+            " All 256 status/reason codes at five session ids are built and decoded back; pairs of different headers with equal 32-bit checksums are decoded one after the other; request constructors are given more than four system bytes."
+            " HsmsApp (connection state machine with T3/T6/T7 time-outs, SECS-II transactions, S9Fx and SxF0) is model-checked incl. a liveness property and its behaviours replayed with the library.",
        note="a control message with SType 0 cannot be produced through the typed constructors; its Type() ('undefined' today) is a declared freedom")
 def c14(ck):
     ck.rule.append("replay: 3 PTypes x 256 codes x 4 session ids x 2 system-byte words through all 8 constructors; sweeps: Type() on all 65,536 "
